@@ -534,6 +534,7 @@ func (l *commitLog) Truncate(offset int64) error {
 		if err := l.segments[i].Delete(); err != nil {
 			return err
 		}
+		crashPoint("truncate.following-segment-deleted")
 		deleted++
 	}
 
@@ -574,6 +575,7 @@ func (l *commitLog) Truncate(offset int64) error {
 				if err := newSegment.WriteMessageSet(ms, []*entry{e}); err != nil {
 					return err
 				}
+				crashPoint("truncate.message-copied")
 			} else {
 				break
 			}
@@ -583,6 +585,7 @@ func (l *commitLog) Truncate(offset int64) error {
 		}
 		segments[idx] = newSegment
 	}
+	crashPoint("truncate.before-epoch-update")
 	activeSegment := segments[len(segments)-1]
 	atomic.StorePointer((*unsafe.Pointer)(unsafe.Pointer(&l.vActiveSegment)),
 		unsafe.Pointer(activeSegment))
@@ -670,6 +673,7 @@ func (l *commitLog) split(oldActiveSegment *segment) error {
 	if err != nil {
 		return err
 	}
+	crashPoint("split.segment-created")
 	// Do a CAS on the active segment to ensure no other threads have replaced
 	// it already. If this fails, it means another thread has already replaced
 	// it, so delete the new segment and return ErrSegmentExists.
@@ -724,6 +728,7 @@ func (l *commitLog) Clean() error {
 	if err != nil {
 		return err
 	}
+	crashPoint("clean.before-epoch-update")
 	l.mu.Lock()
 	newSegments := l.segments
 	if len(newSegments) > len(oldSegments) {
@@ -804,5 +809,7 @@ func (l *commitLog) checkpointHW() error {
 		r    = strings.NewReader(strconv.FormatInt(hw, 10))
 		file = filepath.Join(l.Path, hwFileName)
 	)
+	crashPoint("hw-checkpoint.before")
+	defer crashPoint("hw-checkpoint.after")
 	return atomic_file.WriteFile(file, r)
 }
